@@ -540,8 +540,9 @@ func (g *Gen) unop(st *State, x *ssa.UnOp) Val {
 					continue
 				}
 				g.calleeUse[cs]++
-				if len(cs.Sets) > 0 {
-					g.unsupported("set clauses are not supported at chanrecv pseudo-callees")
+				for _, c := range cs.Requires {
+					pctx := &specCtx{g: g, st: st, old: g.entry}
+					g.oblige(st, "requires", "callee "+cs.Name+" "+c.ID, "precondition of the receive "+name+": "+c.Src, g.evalGoal(pctx, c.E))
 				}
 				var results []Val
 				if tv, ok := r.(TupleV); ok {
